@@ -5,6 +5,8 @@
 package zzverif
 
 import (
+	"context"
+	"time"
 	blsu "github.com/protolambda/bls12-381-util"
 	"crypto/sha256"
 	"encoding/json"
@@ -228,3 +230,16 @@ func BLSFastAggregateVerify(pubs [][48]byte, msg []byte, sig [96]byte) bool {
 // Opaque64 is an uninterpreted function of x named by tag (engine); natively it is not available (harnesses that use
 // it are model-only).
 func Opaque64(tag string, x uint64) uint64 { panic("zzverif.Opaque64 has no native meaning") }
+
+// Ctx*Stub are the engine's replacements for context.WithTimeout / WithDeadline / WithCancel: the derived context is
+// the parent itself (a deadline never fires by itself; cancellation of the parent stays visible), cancel is a no-op.
+// Natively the real context package is used.
+func CtxWithTimeoutStub(parent context.Context, d time.Duration) (context.Context, context.CancelFunc) {
+	return parent, func() {}
+}
+func CtxWithDeadlineStub(parent context.Context, t time.Time) (context.Context, context.CancelFunc) {
+	return parent, func() {}
+}
+func CtxWithCancelStub(parent context.Context) (context.Context, context.CancelFunc) {
+	return parent, func() {}
+}
